@@ -114,6 +114,7 @@ type VC struct {
 	valDecisions map[string]int64 // forced values of split expressions (loop-level case splits)
 	decisions map[string]bool // forced truth values of opaque predicates (VC-level case split)
 	entry    *State
+	exhaustOnly bool // this VC only checks that the contract-level case splits cover the preconditions
 }
 
 func (vc *VC) emit(s string) { vc.lines = append(vc.lines, s) }
